@@ -205,6 +205,15 @@ def gen_program(r: Rng, size=30, sp=None, allow_undefined=False, stdout_writes=T
                 stream = r.choice([0, 0, 0, 256, 0x200, 0x300, 0x700])
                 p.op("LDAC", stream); p.op("LDBM", 1); p.op("STAI", 2); p.op("LDAC", 2); p.opr(3)
                 p.op("LDBM", 1); p.op("LDBI", 1)
+                if r.chance(1, 2):
+                    # make all 32 bits of the value read observable: branch on its sign / on value - 128
+                    wr = Prog()
+                    wr.op("LDAC", r.choice([0x4E, 0x50])); wr.op("LDBM", 1); wr.op("STAI", 2)
+                    wr.op("LDAC", 0 if stdout_writes else 0x300); wr.op("STAI", 3); wr.op("LDAC", 1); wr.opr(3)
+                    p.op("LDAM", 1); p.op("LDAI", 1)
+                    if r.chance(1, 2):
+                        p.op("LDBC", 128); p.opr(2)          # areg = value - 128
+                    p.op("BRN", len(wr.b)); p.b += wr.b
             elif k == 19 and read_unwritten:
                 # read a word far above the image that nothing has written, and make it observable
                 p.op("LDAM", r.choice([50000, 150000, MEMW - 1, 3000 + r.below(100000)]))
